@@ -442,6 +442,47 @@ fn check_g1_pair(c: &G1Pair) -> CaseResult {
     pass(class != "generic" || !same_z, class)
 }
 
+/// P = [k]P1 = (x, y) and Q = (w x, y) with w a primitive cube root of unity mod p: a different point with the same ordinate (b-only curve)
+#[derive(Serialize, Deserialize, Hash, Debug, Clone)]
+pub struct G1SameY {
+    pub k: Hex,
+    pub lambda_p: Hex,
+    pub lambda_q: Hex,
+    pub second_root: bool,
+}
+
+fn check_g1_same_y(c: &G1SameY) -> CaseResult {
+    let pr = r9::params();
+    let p = pr.p;
+    let k = from_be(&c.k) % (&pr.n - 1u32) + 1u32;
+    let p_ref = r9::p1_mul(&k);
+    let (x, y) = p_ref.clone().unwrap();
+    // w = (-1 + sqrt(-3)) / 2
+    let Some(s) = r9::fp(&(p - 3u32)).sqrt_any() else { return pass(false, "no-cube-root-of-unity") };
+    let half = mod_inv(&BigUint::from(2u32), p).unwrap();
+    let w = ((p - 1u32 + if c.second_root { p - &s.v } else { s.v.clone() }) * &half) % p;
+    let q_ref: Pt<Fp> = Some((r9::fp(&((&x.v * &w) % p)), y.clone()));
+    if !pr.g1.on_curve(&q_ref) || q_ref == p_ref {
+        return pass(false, "partner-not-usable");
+    }
+    let nz = |h: &Hex| { let v = from_be(h) % p; if v.is_zero() { BigUint::one() } else { v } };
+    let (lp, lq) = (nz(&c.lambda_p), nz(&c.lambda_q));
+    let (p_lib, q_lib) = (lib_g1(&p_ref, &lp), lib_g1(&q_ref, &lq));
+    let desc = format!("P={} Q={} (same y, Z_P={:x}, Z_Q={:x})", show1(&p_ref), show1(&q_ref), lp, lq);
+    for (what, a, b, want) in [
+        ("P+Q", &p_lib, &q_lib, pr.g1.add(&p_ref, &q_ref)),
+        ("Q+P", &q_lib, &p_lib, pr.g1.add(&p_ref, &q_ref)),
+        ("P-Q", &p_lib, &lib_g1(&pr.g1.neg(&q_ref), &lq), pr.g1.sub(&p_ref, &q_ref)),
+    ] {
+        let got = catch(|| a.point_add(b)).map_err(|e| Fail { key: "entry=Point::point_add outcome=panic".into(), detail: format!("{} {}: {}", what, desc, e) })?;
+        check_g1("Point::point_add", &got, &want, &format!("{} {}", what, desc)).map_err(|mut f| {
+            f.key = format!("{} input=same-y", f.key);
+            f
+        })?;
+    }
+    pass(true, "g1-same-y")
+}
+
 /// A boundary point of G1 (see sm9util::g1_edge_points) in the representation Z = lambda, with a scalar.
 #[derive(Serialize, Deserialize, Hash, Debug, Clone)]
 pub struct G1Edge {
@@ -807,6 +848,16 @@ pub fn run(ctx: &Ctx) {
         }
         v
     }, check_top);
+
+    ctx.listed("g1_same_ordinate_pairs", "P = [k]P1 = (x, y) and its partners (w x, y), (w^2 x, y) with w a primitive cube root of unity: distinct points with the same y, in several Jacobian representations: P+Q, Q+P, P-Q", || {
+        let mut v = Vec::new();
+        for i in 0..10u64 {
+            for (lp, lq) in [(1u64, 1u64), (1, 2), (0x1234_5678_9abc, 1), (0xdead_beef, 0xfeed_f00d)] {
+                v.push(G1SameY { k: Hex(expand_bytes(i ^ 0x5a3e, 32)), lambda_p: gen::hex32(&BigUint::from(lp)), lambda_q: gen::hex32(&BigUint::from(lq)), second_root: i % 2 == 1 });
+            }
+        }
+        v
+    }, check_g1_same_y);
 
     ctx.listed("g1_edge_points", "boundary points of G1 (x next to 0, N, p, 2^256-p, powers of two; Montgomery x with all-ones / zero limbs; y with a leading zero byte) in affine and two Jacobian representations: double, add (P1, itself, its negative; both orders), point_mul, encode", || {
         let mut v = Vec::new();
